@@ -9,7 +9,7 @@ META = {
     "level": "model_checking",
     "engine": "E2 lazy-fork symbolic execution of the real Circuit query methods and props.levelize on a symbolic graph; the value returned on each path is proved equal to a z3 definition (bounded transitive closure, longest-path recurrence, separation) for every pre-state on that path",
     "hashseeds": {"quick": [0], "thorough": [0]},
-    "shards": {"quick": 16, "thorough": 8},
+    "shards": {"quick": 16, "thorough": 16},
     "exhaustive_within_bound": True,
     "bounds": {
         "quick": "fanin_depth/fanout_depth on all DAGs over 5 ordered names; every query on all DAGs on N=4 ordered names (every forward edge symbolic, all nodes present, symbolic types in {input, buf, and, bb_input, bb_output, 0} and output flags); all digraphs without self-loops on 3 names for is_cyclic / topo_sort / the depth functions' and levelize's rejection of cycles; arguments: every single node, 3 node pairs, k in {1,2,3}",
